@@ -835,9 +835,9 @@ def _plans(quick):
                                              mix="MixAll", layouts=[1], max_updates=3, big_n=99, gpb_big_n=3,
                                              noobs_at=[1, 2]), {}),
         ("simulate_smm_to_30_models", dict(max_updates=5, noobs_at=[1, 2, 3], **dict(sim, kinds=["smm"])),
-         dict(simulate="num=3000", depth=600)),
+         dict(simulate="num=1000", depth=600)),
         ("simulate_gpb1_to_30_models", dict(max_updates=3, noobs_at=[1], **dict(sim, kinds=["gpb1"])),
-         dict(simulate="num=1500", depth=400)),
+         dict(simulate="num=500", depth=400)),
     ]
 
 
